@@ -50,7 +50,11 @@ def handle (input : String) : String :=
     | none => "bad-input"
     | some c =>
       if packFails c then "pack=fail" else
-      "pack=ok " ++ " ".intercalate ((baseline c).zipIdx.map fun (s, i) => s!"p{i}={s}")
+      -- `unpack` is a function of the key ring and the envelope: a second envelope of the same parties (q) and the
+      -- first one again (r) come out as the first time
+      let b := (baseline c).zipIdx
+      "pack=ok " ++ " ".intercalate (b.map (fun (s, i) => s!"p{i}={s}") ++ b.map (fun (s, i) => s!"q{i}={s}")
+        ++ b.map (fun (s, i) => s!"r{i}={s}"))
   | _ => "bad-input"
 
 /-- C02: (model column, spec column). The baseline part of the outcome must be what the model predicts; the mutated part
